@@ -350,6 +350,6 @@ pub fn run(cfg: &Cfg) -> i32 {
         "one evaluation = a batch of 220-500 runs in one world: arbitrary byte strings (random with a bias to defined opcodes, mutations of structured programs, stack-limit programs at 1021-1025 items) deployed as runtime code and invoked with random calldata, arbitrary bytes run as init code, and static wrappers that STATICCALL (depth 1-3) a callee attempting SSTORE / TSTORE / LOG / CALL with value / CREATE / CREATE2 / SELFDESTRUCT / a nested CALL that writes / DELEGATECALL to writing code. Monitors: no panic, interpreter hooks (stack high-water mark <= 1024, memory <= cap, every taken jump lands on a byte my own analysis marks as JUMPDEST outside push data, step watchdog), MVM state-tree roots equal around every read-only invocation, no events, no value, no storage, no tombstone. Non-trivial batch = at least 100 runs",
         tier.pick(200, 5000),
         &["interpreter hooks (cargo feature verif-hooks of fil_actor_evm) are additive observation points; the step watchdog and memory cap turn runaway programs into inconclusive runs", "Miri / ASan passes over the interpreter are separate commands (see DESIGN.md 2.5)"],
-        serde_json::json!({}),
+        serde_json::json!({"sanitizers": std::env::var("VH_SANITIZER_REPORT").ok().and_then(|p| std::fs::read_to_string(p).ok()).and_then(|s| serde_json::from_str::<serde_json::Value>(&s).ok()).unwrap_or(serde_json::json!("not run in this invocation (use /verif/check C18 <tier>)"))}),
     )
 }
